@@ -3,7 +3,6 @@ package legs
 import (
 	"fmt"
 	"math/rand"
-	"reflect"
 	"strings"
 	"unicode"
 
@@ -55,15 +54,10 @@ func c03Runes(tag string, rs []rune) string {
 	return b.String()
 }
 
-// c03BmFields reads the pattern and the case flag of a Boyer-Moore prefix (unexported fields, read-only
-// through reflection; a hook would be cleaner, see design.d/C03.md).
+// c03BmFields reads the pattern and the case flag of a Boyer-Moore prefix (hook BmPrefix.VerifPattern).
 func c03BmFields(b *syntax.BmPrefix) (pat []rune, ci bool) {
-	v := reflect.ValueOf(b).Elem()
-	p := v.FieldByName("pattern")
-	for i := 0; i < p.Len(); i++ {
-		pat = append(pat, rune(p.Index(i).Int()))
-	}
-	return pat, v.FieldByName("caseInsensitive").Bool()
+	pat, ci, _ = b.VerifPattern()
+	return pat, ci
 }
 
 const c03AnchorBits = syntax.AnchorBeginning | syntax.AnchorStart | syntax.AnchorEndZ | syntax.AnchorEnd
